@@ -322,15 +322,15 @@ brk('c05_unsafe_append', 'C05', OBJ, '''                Arc::make_mut(&mut l).pu
 
 
 def main():
+    only = sys.argv[1:]
     for d in ('break', 'neutral'):
         dd = os.path.join(os.path.dirname(HERE), 'mutants', d)
         os.makedirs(dd, exist_ok=True)
         for f in os.listdir(dd):
-            if f.endswith('.patch'):
+            if f.endswith('.patch') and not only:
                 os.remove(os.path.join(dd, f))
     sys.path.insert(0, HERE)
     import mutant
-    only = sys.argv[1:]
     for kind, name, props, triples in M:
         if only and not any(name.startswith(o) for o in only):
             continue
